@@ -125,7 +125,10 @@ func (e *DefaultCompactionExecutor) CompactFiles(task *CompactionTask) ([]string
 		var shouldKeep bool
 		isTombstone := mergedIter.IsTombstone()
 
-		if tombstoneFilter != nil && isTombstone {
+		if isTombstone && task.KeepTombstones {
+			// An older version of this key may exist outside the inputs
+			shouldKeep = true
+		} else if tombstoneFilter != nil && isTombstone {
 			// Use the tombstone filter for tombstones
 			shouldKeep = tombstoneFilter.ShouldKeep(key, nil)
 		} else {
